@@ -10,6 +10,8 @@ def check(run):
         n = drivers.check_drivers(run, F)
         run.floor('IDX.driver', 'unchecked accesses in the 5 kernel-form drivers', n, 27)
         backends.check_fast_paths(run, F)
+        from C07 import head_of
+        backends.check_writes(run, F, head_of)
     return run.finish(
         'proof',
         'Obligations over the five kernel-form drivers and six iterator-form drivers of '
